@@ -23,7 +23,8 @@ for d in sorted(glob.glob(DIR + "/*/")):
         else:
             if not os.path.exists(d + "patch.orig.diff"): os.rename(d + "patch.diff", d + "patch.orig.diff")
             open(d + "patch.diff", "w").write(diff)
-            m = json.load(open(d + "meta.json")); m["rebased_on"] = head; json.dump(m, open(d + "meta.json", "w"), indent=1)
+            m = json.load(open(d + "meta.json")) if os.path.exists(d + "meta.json") else {}
+            m["rebased_on"] = head; json.dump(m, open(d + "meta.json", "w"), indent=1)
             print("REBASED", s)
     git("reset", "-q", "--hard", "HEAD", cwd=WT)
 git("worktree", "remove", "--force", WT)
